@@ -1807,6 +1807,9 @@ func patchCode(context *funcContext) { // {{{
 		curop := opGetOpCode(inst)
 		switch curop {
 		case OP_CLOSURE:
+			if reg := opGetArgA(inst); reg > maxreg {
+				maxreg = reg
+			}
 			pc += int(context.Proto.FunctionPrototypes[opGetArgBx(inst)].NumUpvalues)
 			moven = 0
 			continue
@@ -1818,9 +1821,18 @@ func patchCode(context *funcContext) { // {{{
 				continue
 			}
 		case OP_SETGLOBAL, OP_SETUPVAL, OP_EQ, OP_LT, OP_LE, OP_TEST,
-			OP_TAILCALL, OP_RETURN, OP_FORPREP, OP_FORLOOP, OP_TFORLOOP,
-			OP_CLOSE:
+			OP_TAILCALL, OP_RETURN, OP_CLOSE:
 			/* nothing to do */
+		case OP_FORPREP, OP_FORLOOP:
+			// the loop variable is R(A+3)
+			if reg := opGetArgA(inst) + 3; reg > maxreg {
+				maxreg = reg
+			}
+		case OP_TFORLOOP:
+			// the iterator call is laid out in R(A+3)..R(A+5), its results are R(A+3)..R(A+2+C)
+			if reg := opGetArgA(inst) + 2 + intMax(opGetArgC(inst), 3); reg > maxreg {
+				maxreg = reg
+			}
 		case OP_CALL:
 			if reg := opGetArgA(inst) + opGetArgC(inst) - 2; reg > maxreg {
 				maxreg = reg
